@@ -11,11 +11,13 @@ import (
 //
 // IEEE 754-2008 decimal128, binary integer decimal (BID) encoding, as one
 // 128-bit word hi‖lo:
-//   bit 127 (hi[63])            sign
-//   combination field G0..G16 = hi[62..46], trailing significand T = hi[45..0]‖lo (110 bits)
-//   G0G1 != 11: biased exponent = G0..G13 = hi[62..49], coefficient = G14..G16‖T = hi[48..0]‖lo (113 bits)
-//   G0G1 == 11, G2G3 != 11: exponent = G2..G15 = hi[60..47], coefficient = 100‖G16‖T (implicit 2^113 plus hi[46..0]‖lo)
-//   G0..G4 = 11110: infinity; 11111: NaN
+//
+//	bit 127 (hi[63])            sign
+//	combination field G0..G16 = hi[62..46], trailing significand T = hi[45..0]‖lo (110 bits)
+//	G0G1 != 11: biased exponent = G0..G13 = hi[62..49], coefficient = G14..G16‖T = hi[48..0]‖lo (113 bits)
+//	G0G1 == 11, G2G3 != 11: exponent = G2..G15 = hi[60..47], coefficient = 100‖G16‖T (implicit 2^113 plus hi[46..0]‖lo)
+//	G0..G4 = 11110: infinity; 11111: NaN
+//
 // The constants below are derived from these parameters, not read from /repo.
 const (
 	bidSignBit   = 63
@@ -399,7 +401,9 @@ func wordKey(o types.Object, i int) types.Object {
 }
 
 // checkComposePaths verifies compose: statement shape
-//   var hi; if sig[1] > C {hi = A} else {hi = B}; if neg {hi |= S}; return Decimal{sig[0], hi}
+//
+//	var hi; if sig[1] > C {hi = A} else {hi = B}; if neg {hi |= S}; return Decimal{sig[0], hi}
+//
 // with C = 2^49-1 and A, B evaluated by bit provenance under what each branch
 // knows about sig[1].
 func (p *Prog) checkComposePaths(c *Ctx, fd *ast.FuncDecl, ps []types.Object) {
